@@ -394,6 +394,16 @@ def m_wrapping(ex, st, callee, args, dty, m):
     return I(z3.If(ov, sat, val.bv), a.signed)
 
 
+@model(r"(?:std|core)::cmp::(max|min)::<(u8|u16|u32|u64|u128|usize)>$|<(u8|u16|u32|u64|u128|usize) as (?:std::cmp::)?Ord>::(max|min)$")
+def m_int_max_min(ex, st, callee, args, dty, m):
+    a, b = args
+    if not (isinstance(a, I) and isinstance(b, I)):
+        return NotImplemented
+    which = m.group(1) or m.group(4)
+    pick_a = z3.UGE(a.bv, b.bv) if which == "max" else z3.ULE(a.bv, b.bv)
+    return I(z3.If(pick_a, a.bv, b.bv), a.signed)
+
+
 # ---------------------------------------------------------------- comparisons
 def bytes_eq(a, b, n=None):
     if n is None:
